@@ -17,9 +17,18 @@ import (
 type ptIn struct {
 	Enc  Hex `json:"enc"`
 	Form int `json:"form"`
+	// Flip selects a sign-flip partner of the representation: an even subset
+	// of (X,Y,Z,T) is negated, which is again a valid quadruple, of a point
+	// that is in general DIFFERENT from Enc's but shares the raw limbs of the
+	// untouched coordinates (e.g. Flip 1 negates Z and T: the point (-x,-y)
+	// with the same X and Y limbs). 0 = none.
+	Flip int `json:"flip,omitempty"`
 }
 
-func (p ptIn) model() ref.Pt {
+// flipMasks: which of X,Y,Z,T are negated (bit 0 = X ... bit 3 = T).
+var flipMasks = []int{0, 0b1100, 0b0011, 0b0101, 0b1001, 0b0110, 0b1010, 0b1111}
+
+func (p ptIn) base() ref.Pt {
 	pt, ok := ref.Decode(p.Enc)
 	if !ok {
 		panic("harness: alphabet point does not decode in the model")
@@ -27,9 +36,44 @@ func (p ptIn) model() ref.Pt {
 	return pt
 }
 
-func (p ptIn) point() *edwards25519.Point { return alpha.MakePoint(p.model(), p.Form) }
+func (p ptIn) model() ref.Pt {
+	pt := p.base()
+	m := flipMasks[p.Flip]
+	sx := (m&1 != 0) != (m&4 != 0)
+	sy := (m&2 != 0) != (m&4 != 0)
+	if sx {
+		pt.X = ref.FNeg(pt.X)
+	}
+	if sy {
+		pt.Y = ref.FNeg(pt.Y)
+	}
+	return pt
+}
 
-func ptOf(np alpha.NamedPt, form int) ptIn { e := ref.Encode(np.P); return ptIn{Hex(e[:]), form} }
+func (p ptIn) point() *edwards25519.Point {
+	q := alpha.MakePoint(p.base(), p.Form)
+	if p.Flip == 0 {
+		return q
+	}
+	X, Y, Z, T := q.ExtendedCoordinates()
+	raw := alpha.PointRaw(q)
+	el := []*field.Element{X, Y, Z, T}
+	m := flipMasks[p.Flip]
+	for i := 0; i < 4; i++ {
+		var l alpha.Limbs
+		copy(l[:], raw[5*i:5*i+5])
+		*el[i] = alpha.ElemFromLimbs(l) // exact limbs (do not trust the accessor's copy semantics)
+		if m>>i&1 == 1 {
+			el[i].Negate(el[i])
+		}
+	}
+	return alpha.MakePointFromElems(X, Y, Z, T)
+}
+
+func ptOf(np alpha.NamedPt, form int) ptIn {
+	e := ref.Encode(np.P)
+	return ptIn{Enc: Hex(e[:]), Form: form}
+}
 
 func pointIns(quick bool, forms []int) []ptIn {
 	var out []ptIn
@@ -139,6 +183,19 @@ func runC02(ctx *core.Ctx) {
 	subC02.Run(ctx, n*n*len(ops), func(i int) ptBinCase {
 		return ptBinCase{ops[i%len(ops)], pf[(i/len(ops))/n], pf[(i/len(ops))%n]}
 	})
+	// sign-flip partners: the second operand shares raw coordinate limbs with
+	// the first but is a different point (shortcuts keyed on "same X and Y")
+	var fp []ptBinCase
+	for _, base := range pointIns(smoke(ctx), []int{0, 6, 5}) {
+		for k := 1; k < len(flipMasks); k++ {
+			q := base
+			q.Flip = k
+			for _, op := range ops {
+				fp = append(fp, ptBinCase{op, base, q}, ptBinCase{op, q, base})
+			}
+		}
+	}
+	subC02.RunList(ctx, fp)
 	all := pointIns(smoke(ctx), []int{0, 1, 2, 3, 4, 5, 6, 7})
 	un := []string{"Negate", "MultByCofactor", "AddSelfPtr", "SubSelfPtr", "NegateRecv", "CofactorRecv", "AddAllSame", "SubAllSame"}
 	subC02.Run(ctx, len(all)*len(un), func(i int) ptBinCase { return ptBinCase{un[i%len(un)], all[i/len(un)], all[i/len(un)]} })
@@ -153,7 +210,7 @@ var subC06 = core.NewSub("C06/equal", func(w *core.Worker, c ptBinCase) *core.Fa
 		q = p
 	}
 	exp := 0
-	if bytes.Equal(c.P.Enc, c.Q.Enc) {
+	if c.P.model().Equal(c.Q.model()) {
 		exp = 1
 	}
 	got := p.Equal(q)
@@ -239,6 +296,15 @@ func runC06(ctx *core.Ctx) {
 	n := len(pf)
 	subC06.Run(ctx, n*n, func(i int) ptBinCase { return ptBinCase{"Equal", pf[i/n], pf[i%n]} })
 	subC06.Run(ctx, n, func(i int) ptBinCase { return ptBinCase{"SelfPtr", pf[i], pf[i]} })
+	var fq []ptBinCase
+	for _, base := range pointIns(smoke(ctx), []int{0, 6, 5}) {
+		for k := 1; k < len(flipMasks); k++ {
+			q := base
+			q.Flip = k
+			fq = append(fq, ptBinCase{"Equal", base, q})
+		}
+	}
+	subC06.RunList(ctx, fq)
 	// targeted differences: every single-bit delta and limb-corner deltas, for
 	// the hard negative pairs (P,-P) [same y] and (P, -(P+(0,-1))) [same x] and a generic pair
 	var deltas []*big.Int
